@@ -497,6 +497,195 @@ pub fn arb_case(max_producers: usize, max_ops: usize) -> impl Strategy<Value = C
         })
 }
 
+
+// ---------------------------------------------------------------------------------------------
+// "nothing else reaches the stream" once a tracing subscriber exists: the global default
+// subscriber cannot be removed again, so every history runs in its own child process
+// (vcheck C01 --child <boxed>,<valid entries per phase>,<late>,<second queue>)
+
+struct CountingSubscriber(Arc<std::sync::atomic::AtomicUsize>);
+impl tracing::Subscriber for CountingSubscriber {
+    fn enabled(&self, _m: &tracing::Metadata<'_>) -> bool {
+        true
+    }
+    fn new_span(&self, _s: &tracing::span::Attributes<'_>) -> tracing::span::Id {
+        tracing::span::Id::from_u64(1)
+    }
+    fn record(&self, _s: &tracing::span::Id, _v: &tracing::span::Record<'_>) {}
+    fn record_follows_from(&self, _s: &tracing::span::Id, _f: &tracing::span::Id) {}
+    fn event(&self, event: &tracing::Event<'_>) {
+        if *event.metadata().level() == tracing::Level::ERROR {
+            self.0.fetch_add(1, std::sync::atomic::Ordering::SeqCst);
+        }
+    }
+    fn enter(&self, _s: &tracing::span::Id) {}
+    fn exit(&self, _s: &tracing::span::Id) {}
+}
+
+pub fn child_subscriber(arg: &str) -> i32 {
+    let f: Vec<u32> = arg.split(',').map(|x| x.parse().unwrap_or(0)).collect();
+    if f.len() != 4 {
+        return 2;
+    }
+    let (boxed, k, late, second) = (f[0] == 1, f[1], f[2] == 1, f[3] == 1);
+    let errors = Arc::new(std::sync::atomic::AtomicUsize::new(0));
+    let install = |errors: &Arc<std::sync::atomic::AtomicUsize>| {
+        tracing::subscriber::set_global_default(CountingSubscriber(errors.clone())).is_ok()
+    };
+    if !late && !install(&errors) {
+        println!("CHILD-INCONCLUSIVE a global subscriber already exists");
+        return 2;
+    }
+    let log = Arc::new(EventLog::default());
+    // phase script per queue: k valid entries, one Validation, k valid entries, ...
+    let phase = |n: u32| -> Vec<SRes> {
+        let mut v = vec![];
+        for _ in 0..n {
+            v.extend(std::iter::repeat(SRes::Ok).take(k as usize));
+            v.push(SRes::Validation);
+        }
+        v.extend(std::iter::repeat(SRes::Ok).take(k as usize));
+        v
+    };
+    let script = phase(2);
+    let total = script.len() as u32;
+    let stream = BqStream::new(script.clone(), Gate::new(true), log.clone());
+    let (q, h) = build_queue(64, boxed, Duration::from_millis(5), stream);
+    let wait = |q: &Q| block_on_timeout(q.flush_async(), Duration::from_secs(20)).is_some();
+    let half = k + 1;
+    for s in 0..half {
+        q.append(TestE(Id { p: 0, s }));
+    }
+    if !wait(&q) {
+        println!("CHILD-INCONCLUSIVE flush timed out");
+        return 2;
+    }
+    let reports_phase1 = log.count(|e| matches!(e, Ev::NextReport(_)));
+    if !late && reports_phase1 != 0 {
+        println!("CHILD-FAIL subscriber installed before the queue was built, validation error written in-band: {:?}", log.snapshot());
+        return 1;
+    }
+    if late {
+        if reports_phase1 > 1 {
+            println!("CHILD-FAIL {reports_phase1} in-band reports for one validation error");
+            return 1;
+        }
+        if !install(&errors) {
+            println!("CHILD-INCONCLUSIVE a global subscriber already exists");
+            return 2;
+        }
+    }
+    log.push(Ev::Note("subscriber-installed"));
+    // the report is rate limited to one per second, process-wide: let the limit expire so that the
+    // second validation error is reported again (to wherever reports go)
+    std::thread::sleep(Duration::from_millis(1150));
+    let before = errors.load(std::sync::atomic::Ordering::SeqCst);
+    // optionally through a queue that is built after the subscriber exists, too
+    let (q2, h2, log2) = if second {
+        let log2 = Arc::new(EventLog::default());
+        let (q2, h2) = build_queue(64, !boxed, Duration::from_millis(5), BqStream::new(phase(1), Gate::new(true), log2.clone()));
+        (Some(q2), Some(h2), Some(log2))
+    } else {
+        (None, None, None)
+    };
+    for s in half..total {
+        q.append(TestE(Id { p: 0, s }));
+    }
+    if !wait(&q) {
+        println!("CHILD-INCONCLUSIVE flush timed out");
+        return 2;
+    }
+    if let Some(q2) = &q2 {
+        std::thread::sleep(Duration::from_millis(1150));
+        for s in 0..(2 * k + 1) {
+            q2.append(TestE(Id { p: 1, s }));
+        }
+        if !wait(q2) {
+            println!("CHILD-INCONCLUSIVE flush timed out");
+            return 2;
+        }
+    }
+    drop(q);
+    h.shut_down();
+    drop(q2);
+    if let Some(h2) = h2 {
+        h2.shut_down();
+    }
+    let evs = log.snapshot();
+    let marker = evs.iter().position(|e| matches!(e, Ev::Note("subscriber-installed"))).unwrap();
+    let late_reports = evs[marker..].iter().filter(|e| matches!(e, Ev::NextReport(_))).count();
+    if late_reports != 0 {
+        println!("CHILD-FAIL {late_reports} in-band report entr(y/ies) reached the stream although a tracing subscriber was installed (boxed={boxed} late={late}); tail of the log: {:?}", &evs[marker..]);
+        return 1;
+    }
+    let ids: Vec<u32> = evs.iter().filter_map(|e| if let Ev::Next(id, _) = e { Some(id.s) } else { None }).collect();
+    if ids != (0..total).collect::<Vec<_>>() {
+        println!("CHILD-FAIL entries seen by the stream {ids:?}, appended 0..{total}");
+        return 1;
+    }
+    if let Some(l2) = &log2 {
+        let e2 = l2.snapshot();
+        if e2.iter().any(|e| matches!(e, Ev::NextReport(_))) {
+            println!("CHILD-FAIL in-band report on a queue built after the subscriber was installed: {e2:?}");
+            return 1;
+        }
+        let ids: Vec<u32> = e2.iter().filter_map(|e| if let Ev::Next(id, _) = e { Some(id.s) } else { None }).collect();
+        if ids != (0..2 * k + 1).collect::<Vec<_>>() {
+            println!("CHILD-FAIL second queue: entries seen by the stream {ids:?}");
+            return 1;
+        }
+    }
+    let got = errors.load(std::sync::atomic::Ordering::SeqCst) - before;
+    println!("CHILD-OK reports_before_subscriber={reports_phase1} error_events_after={got}");
+    0
+}
+
+fn subscriber_children(ctx: &mut Ctx) {
+    let mut t = Tally::new(
+        "c01-subscriber-child-process",
+        "a global tracing subscriber cannot be uninstalled: each history runs in a child process (vcheck C01 --child boxed,k,late,second). Typed or boxed queue; k valid entries then one Validation result, flushed; the subscriber is installed either before the queue is built or only now (late: the first validation error may have produced one in-band report); after the 1 s report rate limit has expired k more entries, another Validation result, k more; optionally a second queue of the other flavour built after the subscriber exists gets the same. Oracle: after the subscriber is installed no in-band report entry reaches any stream, every appended entry reaches its stream exactly once in order. Non-trivial = late installation or a second queue",
+    );
+    let n_children = ctx.tier.pick(4, 24);
+    let exe = std::env::current_exe().unwrap();
+    let mut failure = None;
+    let mut handles = vec![];
+    for i in 0..n_children {
+        let w = ctx.seed.wrapping_mul(0x9E37_79B9_7F4A_7C15).rotate_left(i as u32 * 7) ^ (i as u64);
+        // the first four cover every (boxed, late) combination
+        let boxed = i % 2;
+        let late = (i / 2 + 1) % 2;
+        let k = (w >> 8) % 6;
+        let second = if i < 4 { (i == 1 || i == 2) as u64 } else { (w >> 16) % 2 };
+        let arg = format!("{boxed},{k},{late},{second}");
+        let exe = exe.clone();
+        handles.push((arg.clone(), late == 1 || second == 1, std::thread::spawn(move || std::process::Command::new(&exe).args(["C01", "--child", &arg]).output())));
+    }
+    for (arg, nt, h) in handles {
+        match h.join().unwrap() {
+            Ok(o) => {
+                let s = String::from_utf8_lossy(&o.stdout).to_string();
+                if s.contains("CHILD-OK") {
+                    let tags: &[&str] = if nt { &["nt"] } else { &[] };
+                    t.record(hash_of(&arg), tags, || serde_json::json!({"boxed,k,late,second": arg, "child": s.trim()}));
+                } else if s.contains("CHILD-FAIL") {
+                    if failure.is_none() {
+                        failure = Some((Fail::new("bq:in-band-report-with-subscriber", format!("child history {arg}: {s}")), arg.clone()));
+                    }
+                } else {
+                    ctx.inconclusive.push(format!("child {arg}: {s} {}", String::from_utf8_lossy(&o.stderr)));
+                }
+            }
+            Err(e) => {
+                ctx.inconclusive.push(format!("cannot spawn child: {e}"));
+            }
+        }
+    }
+    ctx.push_custom(t.finish(&[]));
+    if let Some((f, arg)) = failure {
+        ctx.report_violation("c01-subscriber-child-process", f, serde_json::json!({"child": arg}), "child".into());
+    }
+}
+
 pub const RULE: &str = "1-6 real producer threads x 0-25 ops (append, bursts, flush requests fired or awaited, yields/spins/sleeps, continuing through a clone) on a typed or boxed queue with capacity > total appends; the library's own writer thread; per-call stream results Ok/Validation/Io for entries (optionally repeating for the whole run), Ok/Io for the in-band report, Ok/error for stream.flush(); capacity = entries appended + 1 or exactly the entries appended; writer progress owned by a generated fuel script (grants, pauses, wait-until-parked-at-the-gate) so that park/unpark races and drained-then-refilled queues occur; flush interval 1us / 1ms / 50ms; in a quarter of the cases the gate stays shut until shut_down() has begun, so that the shutdown-time drain meets a backlog with Io / Validation results inside it; no tracing subscriber (in-band report path live). a quarter of the cases end through forget() + drop of the last handle (the writer's own 'no appenders left' exit) instead of shut_down(). Oracle over the global event log after the end: every appended (producer, seq) reaches the stream exactly once, per-producer seq increasing, nothing else except the in-band report (only after a validation error, process-wide <= 1/s), stream flushed after the last entry and dropped. Non-trivial = >=2 producers with >=2 entries each and (a non-Ok result or a flush request)";
 
 pub fn run(ctx: &mut Ctx) {
@@ -530,4 +719,5 @@ pub fn run(ctx: &mut Ctx) {
         },
         check,
     );
+    subscriber_children(ctx);
 }
